@@ -2,6 +2,8 @@ import YaqsModel.Lemmas.Verdict
 import YaqsModel.Lemmas.MpoUpdate
 import YaqsModel.Lemmas.CRat
 import YaqsModel.Lemmas.CheckerEndToEnd
+import YaqsModel.Lemmas.CheckerLongRange
+import YaqsModel.Model.Gates
 import Mathlib.LinearAlgebra.Matrix.Trace
 import Mathlib.Data.Complex.Basic
 import Mathlib.Algebra.Star.Basic
@@ -942,3 +944,519 @@ example : (∃ ts, iterateMpo star 2 (1 / 2) exGateOf exGateOf 2 exC1 exC2 [exDe
   exact ⟨h.1, h.2 exExactA⟩
 
 end Yaqs.CheckerE2E
+
+/-! ## Part E — long-range two-qubit gates and swaps at chain level (extension xl04)
+
+  The property ends with "… and holds for circuits containing long-range two-qubit gates and swaps".  Part D stops at a long-range
+  event (`stepsOf` returns `none`); this part puts `apply_long_range_layer` inside the chain-level model
+  (`Model/CheckerChain.lean`: `lrMul`, `lrLayer`, `stepsOfLR`, `runStepsLR`, `iterateMpoLR`, `checkerRunLR`; helper lemmas in
+  `Lemmas/CheckerLongRange.lean`) and extends C04.28 / C04.30 to circuits with two-qubit gates at **any distance, either
+  orientation, in either circuit**.
+
+  **How the code treats `swap`**: not decomposed — `GateLibrary.swap` is a gate object with its own `mpo_tensors`
+  (`extend_gate` of the 4×4 swap matrix, operator-Schmidt rank 4) and at distance > 1 takes the same `apply_long_range_layer`
+  path as every other two-qubit gate; at distance 1 it is an ordinary two-site tensor in a temporal zone (Part D).  That is
+  what is modelled: nothing swap-specific.
+
+  **What is composed, what is assumed** (each named in the statements):
+  * *composed* — C04.34 `mpo_product_chain` (MPO of a product = bond-fused site-wise product), C04.21 (the code's einsums +
+    reshapes ARE those site products, with the gate bond most significant on top / the MPO bond most significant below),
+    C04.35 `long_range_stack` (state after the site-wise multiplication, before any SVD), C04.27 / `runSteps_represents` of Part D
+    for the re-compression sweep of the layer (it IS a sequence of `update_mpo`-shaped steps on the stacked chain),
+    C04.10 `iterate_result` for the order of the events.
+  * *assumed, spec-tied on every `e2e-lr` run* — `GateMpoOK`: the tensors `gate_.mpo_tensors` form a chain whose operator is the
+    gate's stored two-site tensor on the END sites of its span (discharged from "exact split + identity tensors in between"
+    by C04.37, the statement of C18 `c18_mpo_identity_chain`; the split itself is LAPACK's SVD of the 4×4 gate);
+    `ExactBlocks`: no `decompose_theta` of the run discards anything (as `ExactSteps` in Part D); exact arithmetic.
+  * *symmetric gates* — the conjugated branch multiplies by `conj(G)`, not `Gᴴ` (C04.21b, C04.35): for a gate of the SECOND
+    circuit the theorems need `SymLR`: the stored 4×4 matrix of every long-range gate is symmetric.  C04.38 proves it of every
+    two-qubit gate of the library in both orientations (cx, cz, cp, swap, rxx, ryy, rzz). -/
+namespace Yaqs.CheckerLR
+open Matrix Yaqs.MpoConv Yaqs.MpoUpdate Yaqs.Verdict Yaqs.CheckerChain Yaqs.CheckerE2E Yaqs.Embed
+open scoped Kronecker
+
+/-- **C04.34 (`mpo_product_chain`)** the MPO of a product is the bond-fused site-wise product: for two chains of `n` tensors,
+    `to_matrix` of the chain of site products `mulSite Aₖ Bₖ` (`Aₖ` on top, its bond index the most significant digit of the
+    fused bond — C04.21: what the einsums + reshapes of `apply_long_range_layer` compute) is
+    `to_matrix(A) · to_matrix(B)` — every length, all bond dimensions; and the product chain is a well-formed chain again. -/
+theorem mpo_product_chain {K : Type} [CommSemiring K] (d n : Nat) (As Bs : List (Site K)) (hA : As.length = n)
+    (hB : GoodChain d n Bs) :
+    chainMat d n (List.zipWith mulSite As Bs) = chainMat d n As * chainMat d n Bs ∧
+    (GoodChain d n As → GoodChain d n (List.zipWith mulSite As Bs)) := by
+  obtain ⟨hl, hc, hla, hd⟩ := hB
+  constructor
+  · ext σ σ'
+    have key := valsE_mul d n As Bs hA hl hd 1 1 hc (cfg σ) (cfg σ') (by simp) (by simp) (fun _ => 1) (fun _ => 1) (fun _ => 1)
+      (fun _ _ _ _ => by simp) 0 (by omega) 0 (by omega)
+    simp only [Nat.zero_mul, Nat.zero_add, valsE_one] at key
+    simp only [chainMat, Matrix.mul_apply]
+    exact key
+  · intro hg
+    obtain ⟨c1, c2⟩ := chainFrom_zipWith mulSite (fun _ _ => rfl) (fun _ _ => rfl) As Bs 1 1 (by omega) hg.chain hc
+    rw [Nat.one_mul] at c1 c2
+    refine ⟨by simp [hA, hl], c1, by rw [c2, hg.last, hla], ?_⟩
+    exact zipWith_dims mulSite d (fun _ _ => rfl) As Bs hd
+
+private def exA : Site CRat := ⟨2, 1, 2, fun a b _ r => ⟨(a + r : Nat), (b : Nat)⟩⟩
+private def exB : Site CRat := ⟨2, 2, 1, fun a b l _ => ⟨(a * b : Nat), (l : Nat)⟩⟩
+private theorem exAB_good : GoodChain 2 2 [exA, exB] :=
+  ⟨rfl, by decide, by decide, by intro t ht; simp at ht; rcases ht with rfl | rfl <;> rfl⟩
+
+example : chainMat 2 2 (List.zipWith mulSite [exA, exB] [exA, exB]) = chainMat 2 2 [exA, exB] * chainMat 2 2 [exA, exB] ∧
+    GoodChain 2 2 (List.zipWith mulSite [exA, exB] [exA, exB]) :=
+  ⟨(mpo_product_chain 2 2 [exA, exB] [exA, exB] rfl exAB_good).1, (mpo_product_chain 2 2 [exA, exB] [exA, exB] rfl exAB_good).2 exAB_good⟩
+
+/-- **C04.35 (`long_range_stack`: the chain after the site-wise multiplication, before any SVD)** let the gate-MPO tensors
+    `gm` (a chain over `len ≥ 2` sites whose operator is `G` on its two end sites, identity in between) be stacked on the
+    tensors at sites `loc … loc+len-1` of a well-formed chain exactly as the code's reshapes fuse the bonds.  Then the result is
+    a well-formed chain again and
+    * gate of the first circuit (`conjugate=False`, `lrMul false gm`):   `to_matrix(new) = embedLR(G) · to_matrix(O)`;
+    * gate of the second circuit (`conjugate=True`, the tensors of `gate_mpo.rotate(conjugate=True)` stacked from below between
+      two `mpo.rotate()`):   `to_matrix(new) = to_matrix(O) · embedLR(conj G)` — entry-wise conjugate, **not** the adjoint;
+    * hence `to_matrix(O) · embedLR(G)ᴴ` whenever `G` is a symmetric matrix,
+    where `embedLR(G)` = `embed2 d n loc (loc+len-1) G` puts the two-site operator on the end sites of the span, identity elsewhere. -/
+theorem long_range_stack {K : Type} [CommSemiring K] [StarRing K] (d n : Nat) (gm pre ws post : List (Site K))
+    (G : Matrix (Fin d × Fin d) (Fin d × Fin d) K) (hg : GoodChain d n (pre ++ (ws ++ post))) (h2 : 2 ≤ ws.length)
+    (hgm : GoodChain d ws.length gm) (hG : chainMat d ws.length gm = embed2 d ws.length 0 (ws.length - 1) G) :
+    (GoodChain d n (lrMul false gm pre.length (pre ++ (ws ++ post))) ∧
+      chainMat d n (lrMul false gm pre.length (pre ++ (ws ++ post)))
+        = embed2 d n pre.length (pre.length + (ws.length - 1)) G * chainMat d n (pre ++ (ws ++ post))) ∧
+    (GoodChain d n (lrMul true (rotateMpo star gm) pre.length (pre ++ (ws ++ post))) ∧
+      chainMat d n (lrMul true (rotateMpo star gm) pre.length (pre ++ (ws ++ post)))
+        = chainMat d n (pre ++ (ws ++ post)) * embed2 d n pre.length (pre.length + (ws.length - 1)) (G.map star)) ∧
+    (Gᵀ = G → chainMat d n (lrMul true (rotateMpo star gm) pre.length (pre ++ (ws ++ post)))
+        = chainMat d n (pre ++ (ws ++ post)) * (embed2 d n pre.length (pre.length + (ws.length - 1)) G)ᴴ) := by
+  have hfit : pre.length + ws.length ≤ n := by
+    have := hg.len
+    simp at this
+    omega
+  have e0 := embedL_seg_embed2 n pre.length ws.length 0 (ws.length - 1) hfit (by omega) (by omega) (by omega) G
+  have e0' := embedL_seg_embed2 n pre.length ws.length 0 (ws.length - 1) hfit (by omega) (by omega) (by omega) (G.map star)
+  rw [Nat.add_zero] at e0 e0'
+  have hbot : chainMat d n (lrMul true (rotateMpo star gm) pre.length (pre ++ (ws ++ post)))
+      = chainMat d n (pre ++ (ws ++ post)) * embed2 d n pre.length (pre.length + (ws.length - 1)) (G.map star) := by
+    rw [lrMul_bottom d n _ gm pre ws post hgm hg rfl hfit, hG, embed2_map_star', e0']
+  refine ⟨⟨goodChain_lrMul false d n _ gm pre ws post hgm hg rfl, ?_⟩,
+    ⟨goodChain_lrMul true d n _ _ pre ws post (goodChain_rotate star d _ gm hgm) hg rfl, hbot⟩, ?_⟩
+  · rw [lrMul_top d n _ gm pre ws post hgm hg rfl hfit, hG, e0]
+  · intro hs
+    rw [hbot, embed2_conjTranspose]
+    congr 2
+    conv_rhs => rw [← hs]
+    rfl
+
+/-- **C04.36 (`long_range_layer_chain`: one whole `apply_long_range_layer`, nothing discarded)** for a well-formed chain `O`, a
+    long-range gate `g` of circuit `c` whose gate-MPO tensors represent it (`GateMpoOK`; symmetric stored matrix when
+    `c = 2`), the pair updates `ss` of the layer inside the register and every split of the re-compression sweep untruncated:
+    the new chain is well formed and `to_matrix(new)` is the event semantics of C04.10 applied to `to_matrix(O)` —
+
+        c = 1:   (zone events of the sweep) ∘ ( embedLR(G) · to_matrix(O) )
+        c = 2:   (zone events of the sweep) ∘ ( to_matrix(O) · embedLR(G)ᴴ )
+
+    and when the sweep's temporal zones are empty, exactly `embedLR(G) · to_matrix(O)` resp. `to_matrix(O) · embedLR(G)ᴴ`
+    (`embedLR(G)` = the gate's operator on the register, `sem`).  Proof: C04.35 for the stacking; the sweep is a `runSteps` on the
+    stacked chain, so Part D's `runSteps_represents` (C04.27 per pair) applies verbatim — also to the hanging last site. -/
+theorem long_range_layer_chain {K : Type} [CommSemiring K] [StarRing K] (d n : Nat) (thr : Rat) (gate1 gate2 : Instr → Gate K)
+    (ts ts' : List (Site K)) (c : Nat) (g : Instr) (gm : List (Site K)) (ss : List Step) (decs : List (Svd K))
+    (hg : GoodChain d n ts) (hb : BlkOK d n gate1 gate2 (.lr c g ss))
+    (hgm : GateMpoOK d ((if c = 1 then gate1 else gate2) g) g gm)
+    (hx : ExactSteps d thr gate1 gate2
+      (lrMul (decide (c = 2)) (lrGateTensors star (decide (c = 2)) gm) (lrLoc g) ts) ss decs)
+    (h : lrLayer star d thr gate1 gate2 ts c g gm ss decs = some ts') :
+    GoodChain d n ts' ∧
+    chainMat d n ts' = runEvs (sem d n gate1) (fun i => star (sem d n gate2 i)) (chainMat d n ts) (Blk.evs (.lr c g ss)) ∧
+    ((∀ s ∈ ss, s.is1 = [] ∧ s.is2 = []) →
+      (c = 1 → chainMat d n ts' = sem d n gate1 g * chainMat d n ts) ∧
+      (c = 2 → chainMat d n ts' = chainMat d n ts * (sem d n gate2 g)ᴴ)) := by
+  obtain ⟨h1, h2⟩ := lrLayer_represents d n thr gate1 gate2 ts ts' c g gm ss decs hg hb hgm hx h
+  refine ⟨h1, h2, fun hempty => ?_⟩
+  have hz : ∀ (X : Matrix (Fin n → Fin d) (Fin n → Fin d) K) (ss : List Step), (∀ s ∈ ss, s.is1 = [] ∧ s.is2 = []) →
+      runEvs (sem d n gate1) (fun i => star (sem d n gate2 i)) X (ss.flatMap Step.evs) = X := by
+    intro X ss
+    induction ss generalizing X with
+    | nil => intro _; rfl
+    | cons s ss ih =>
+      intro hs
+      obtain ⟨e1, e2⟩ := hs s (by simp)
+      have : runEvs (sem d n gate1) (fun i => star (sem d n gate2 i)) X (s.evs ++ ss.flatMap Step.evs)
+          = runEvs (sem d n gate1) (fun i => star (sem d n gate2 i)) X (ss.flatMap Step.evs) := by
+        simp [runEvs, Step.evs, applyEv, e1, e2, U]
+      rw [List.flatMap_cons, this]
+      exact ih X (fun s' hs' => hs s' (by simp [hs']))
+  have e : runEvs (sem d n gate1) (fun i => star (sem d n gate2 i)) (chainMat d n ts) (Blk.evs (.lr c g ss))
+      = runEvs (sem d n gate1) (fun i => star (sem d n gate2 i))
+          (applyEv (sem d n gate1) (fun i => star (sem d n gate2 i)) (chainMat d n ts) (Ev.lr c g)) (ss.flatMap Step.evs) := rfl
+  rw [e, hz _ ss hempty] at h2
+  constructor
+  · rintro rfl
+    rw [h2]; simp [applyEv]
+  · rintro rfl
+    rw [h2]; simp [applyEv, star_eq_conjTranspose]
+
+/-- **C04.37 (`gate_mpo_is_gate_on_ends`: the gate-MPO hypothesis from an exact split)** the statement of C18
+    `c18_mpo_identity_chain` in the chain vocabulary: end tensors `A` (left bond 1), `B` (right bond 1) with
+    `Σ_{x<χ} A[a,c,0,x] · B[b,e,x,0] = gate.tensor[a,b,c,e]` and `k` identity tensors of bond dimension `χ` in between (what
+    `extend_gate` builds — in stored order, i.e. for either orientation: the reversal + bond swap of `sites[1] < sites[0]` maps
+    identity tensors to identity tensors) are a well-formed chain over `k + 2` sites whose operator is the gate on the two END
+    sites and the identity in between; for an instruction at that distance this is `GateMpoOK`. -/
+theorem gate_mpo_is_gate_on_ends {K : Type} [CommSemiring K] (d chi k : Nat) (A B : Site K) (g : Gate K) (i : Instr)
+    (hA : A.dl = 1 ∧ A.dr = chi ∧ A.d = d) (hB : B.dl = chi ∧ B.dr = 1 ∧ B.d = d)
+    (hsplit : ∀ a, a < d → ∀ b, b < d → ∀ c, c < d → ∀ e, e < d →
+      sumTo chi (fun x => A.e a c 0 x * B.e b e x 0) = g.ten a b c e)
+    (hdist : dist i.qs = k + 2) :
+    chainMat d (k + 2) (A :: (List.replicate k (idBond d chi) ++ [B])) = embed2 d (k + 2) 0 (k + 1) (gateMat2 d g.ten) ∧
+    GateMpoOK d g i (A :: (List.replicate k (idBond d chi) ++ [B])) := by
+  obtain ⟨h1, h2⟩ := gate_chain_embed d chi k A B g.ten hA hB hsplit
+  refine ⟨h2, ?_⟩
+  unfold GateMpoOK
+  rw [hdist]
+  exact ⟨h1, h2⟩
+
+/-- **C04.38 (`library_two_qubit_gates_symmetric`)** every two-qubit gate of the library — cx, cz, cp, swap, rxx, ryy, rzz, for every
+    value of the parameters and in both orientations (`gate.tensor` as `set_sites` stores it, C18 `G2.tensor`) — is a
+    symmetric 4×4 matrix: `tensor[a,b,c,e] = tensor[c,e,a,b]`.  So `conj(G) = Gᴴ` and the conjugated long-range branch
+    (C04.21b, C04.35) applies `Gᴴ` for every gate the checker accepts; in particular `SymLR` holds for library circuits. -/
+theorem library_two_qubit_gates_symmetric {K : Type} [CommRing K] (g : Gates.G2) (i c s : K) (rev : Bool) :
+    (∀ a b c' e : Fin 2, Gates.G2.tensor g i c s rev a b c' e = Gates.G2.tensor g i c s rev c' e a b) ∧
+    ∀ ten : T4 K, (∀ a b c' e : Fin 2, ten a b c' e = Gates.G2.tensor g i c s rev a b c' e) →
+      (gateMat2 2 ten)ᵀ = gateMat2 2 ten := by
+  have key : ∀ a b c' e : Fin 2, Gates.G2.tensor g i c s rev a b c' e = Gates.G2.tensor g i c s rev c' e a b := by
+    intro a b c' e
+    cases g <;> cases rev <;> fin_cases a <;> fin_cases b <;> fin_cases c' <;> fin_cases e <;>
+      simp [Gates.G2.tensor, Gates.G2.matrix, Gates.G2.transposesOnReverse, Gates.tensorOf, Gates.transpose1032, Gates.pair,
+        Gates.cx, Gates.cz, Gates.cp, Gates.swap, Gates.rxx, Gates.ryy, Gates.rzz, Gates.m4, Gates.v4]
+  refine ⟨key, fun ten hten => ?_⟩
+  ext x y
+  simp only [Matrix.transpose_apply, gateMat2]
+  rw [hten, hten, key]
+
+example : (Gates.G2.tensor Gates.G2.ryy CRat.I (⟨3 / 5, 0⟩ : CRat) ⟨4 / 5, 0⟩ true 0 0 1 1
+    = Gates.G2.tensor Gates.G2.ryy CRat.I (⟨3 / 5, 0⟩ : CRat) ⟨4 / 5, 0⟩ true 1 1 0 0) ∧
+    Gates.G2.tensor Gates.G2.ryy CRat.I (⟨3 / 5, 0⟩ : CRat) ⟨4 / 5, 0⟩ true 0 0 1 1 = ⟨0, 4 / 5⟩ :=
+  ⟨(library_two_qubit_gates_symmetric Gates.G2.ryy CRat.I ⟨3 / 5, 0⟩ ⟨4 / 5, 0⟩ true).1 0 0 1 1, by decide +kernel⟩
+
+/-- **C04.39 (`lr_event_list_is_blocks`)** for circuits of one-qubit gates and two-qubit gates on distinct qubits at ANY distance
+    inside the register, the event list of `iterate` is a sequence of blocks — `update_mpo` calls and long-range layers
+    `g<c>:<id>` followed by the pair updates at `lrPairs location distance` — which `stepsOfLR` recovers; every pair is inside
+    the register and consumes only gates of its own two sites (C04.13: no assertion of `apply_gate` fires), and the gate of a
+    layer is a two-qubit gate of the circuit the layer takes it from. -/
+theorem lr_event_list_is_blocks {K : Type} [CommSemiring K] (d n : Nat) (gate1 gate2 : Instr → Gate K) (c1 c2 : Dag)
+    (fuel : Nat) (evs : List Ev) (h1 : LRCircuit n c1 gate1) (h2 : LRCircuit n c2 gate2) (hs : SymLR d c2 gate2)
+    (h : iterate n c1 c2 fuel = .done evs) :
+    2 ≤ n ∧ ∃ bs : List Blk, stepsOfLR evs.length evs = some bs ∧ evs = bs.flatMap Blk.evs ∧
+      ∀ b ∈ bs, BlkOK d n gate1 gate2 b :=
+  iterate_blocks_ok d n gate1 gate2 c1 c2 fuel evs h1 h2 hs h
+
+/-- **C04.40 (`iterate_represents_product_lr`)** C04.28 for circuits **containing long-range two-qubit gates and swaps** (any
+    distance, either orientation, in either circuit): with the gate-MPO tensors of every long-range layer representing their
+    gate (`GateMposOK`), the long-range gates of the second circuit symmetric (`SymLR`; C04.38: every library gate) and no
+    split of the run truncating (`ExactBlocks`), the tensor list `iterate` leaves behind — started from `mpo.identity(n)` — is
+    a well-formed chain of `n` tensors with
+
+        to_matrix(final chain) = U₁ · 1 · U₂ᴴ .
+
+    Proof: induction over the blocks (`runStepsLR_represents`: C04.27 per `update_mpo`, C04.36 per long-range layer) gives
+    `runEvs sem₁ (star ∘ sem₂) 1 evs`; C04.10 `iterate_result` (all circuits) with C04.25 turns it into the product in program
+    order. -/
+theorem iterate_represents_product_lr {K : Type} [CommSemiring K] [StarRing K] (d n : Nat) (thr : Rat)
+    (gate1 gate2 : Instr → Gate K) (c1 c2 : Dag) (gms : List (List (Site K))) (decs : List (Svd K)) (ts : List (Site K))
+    (h1 : LRCircuit n c1 gate1) (h2 : LRCircuit n c2 gate2) (hs : SymLR d c2 gate2)
+    (hm : ∀ evs bs, iterate n c1 c2 (c1.length + c2.length) = .done evs → stepsOfLR evs.length evs = some bs →
+      GateMposOK d gate1 gate2 bs gms)
+    (hx : ∀ evs bs, iterate n c1 c2 (c1.length + c2.length) = .done evs → stepsOfLR evs.length evs = some bs →
+      ExactBlocks d thr gate1 gate2 (identityMpo n d) bs gms decs)
+    (h : iterateMpoLR star d thr gate1 gate2 n c1 c2 gms decs = some ts) :
+    GoodChain d n ts ∧ 2 ≤ n ∧
+    chainMat d n ts = U (sem d n gate1) c1 * 1 * star (U (sem d n gate2) c2) ∧
+    chainMat d n ts = U (sem d n gate1) c1 * (U (sem d n gate2) c2)ᴴ := by
+  obtain ⟨evs, hit, hn, hg, hmat⟩ := iterateMpoLR_runEvs d n thr gate1 gate2 c1 c2 gms decs ts h1 h2 hs hm hx h
+  have hr := iterate_result (sem d n gate1) (sem d n gate2) (fun a b hab => sem_commute d n gate1 a b hab)
+    (fun a b hab => sem_commute d n gate2 a b hab) n c1 c2 _ evs hit 1
+  rw [hr] at hmat
+  exact ⟨hg, hn, hmat, by rw [hmat, mul_one, star_eq_conjTranspose]⟩
+
+/-- **C04.41 (`checker_correct_lr`)** hence, for circuits with long-range gates and swaps and untruncated splits,
+    `equivalence_checker.run(c1, c2, thr, f)["equivalent"]` is the decision of `check_if_identity` on `tr(U₁ᴴ U₂)`:
+    **equivalent ⇔ f ≤ |tr(U₁ᴴ U₂)| / 2ⁿ** (exactly over ℚ(i) in squared form; as `verdict t n f` of Part A whenever the modulus
+    is rational) — C04.30 without the nearest-neighbour restriction. -/
+theorem checker_correct_lr (thr : Rat) (gate1 gate2 : Instr → Gate CRat) (n : Nat) (c1 c2 : Dag)
+    (gms : List (List (Site CRat))) (decs : List (Svd CRat)) (f : Rat) (b : Bool)
+    (h1 : LRCircuit n c1 gate1) (h2 : LRCircuit n c2 gate2) (hs : SymLR 2 c2 gate2)
+    (hm : ∀ evs bs, iterate n c1 c2 (c1.length + c2.length) = .done evs → stepsOfLR evs.length evs = some bs →
+      GateMposOK 2 gate1 gate2 bs gms)
+    (hx : ∀ evs bs, iterate n c1 c2 (c1.length + c2.length) = .done evs → stepsOfLR evs.length evs = some bs →
+      ExactBlocks 2 thr gate1 gate2 (identityMpo n 2) bs gms decs)
+    (h : checkerRunLR thr gate1 gate2 n c1 c2 gms decs f = some b) :
+    b = identityDecision (trace ((U (sem 2 n gate1) c1)ᴴ * U (sem 2 n gate2) c2)) n f ∧
+    (b = true ↔ ¬ (0 < f ∧ CRat.normSq (trace ((U (sem 2 n gate1) c1)ᴴ * U (sem 2 n gate2) c2))
+        < (f * (2 : Rat) ^ n) * (f * (2 : Rat) ^ n))) ∧
+    ∀ t : Rat, 0 ≤ t → t * t = CRat.normSq (trace ((U (sem 2 n gate1) c1)ᴴ * U (sem 2 n gate2) c2)) →
+      b = verdict t n f ∧ (b = true ↔ f ≤ t / (2 : Rat) ^ n) := by
+  obtain ⟨ts, hts, hdec⟩ := checkerRunLR_decision thr gate1 gate2 n c1 c2 gms decs f b h
+  obtain ⟨hg, hn, _, hmat⟩ := iterate_represents_product_lr 2 n thr gate1 gate2 c1 c2 gms decs ts h1 h2 hs hm hx hts
+  have hb := hdec hg (by omega)
+  have htr : star (trace (chainMat 2 n ts)) = trace ((U (sem 2 n gate1) c1)ᴴ * U (sem 2 n gate2) c2) := by
+    rw [hmat, ← trace_conjTranspose, conjTranspose_mul, conjTranspose_conjTranspose, trace_mul_comm]
+  rw [htr] at hb
+  refine ⟨hb, ?_, fun t ht hsq => ?_⟩
+  · rw [hb]
+    unfold identityDecision
+    simp only [Bool.not_eq_true', Bool.and_eq_false_iff, decide_eq_false_iff_not, not_and_or]
+  · have := MpoUpdate.check_if_identity_decision _ n f t ht hsq
+    rw [← hb] at this
+    exact this
+
+/-- **C04.42 (`checker_equal_up_to_phase_lr`)** circuits with long-range gates and swaps whose operators are equal up to a global
+    phase (`U₁ = c · U₂`, `|c| = 1`, `U₂` unitary) are reported equivalent for every requested fidelity `f ≤ 1`. -/
+theorem checker_equal_up_to_phase_lr (thr : Rat) (gate1 gate2 : Instr → Gate CRat) (n : Nat) (c1 c2 : Dag)
+    (gms : List (List (Site CRat))) (decs : List (Svd CRat)) (f : Rat) (b : Bool)
+    (h1 : LRCircuit n c1 gate1) (h2 : LRCircuit n c2 gate2) (hs : SymLR 2 c2 gate2)
+    (hm : ∀ evs bs, iterate n c1 c2 (c1.length + c2.length) = .done evs → stepsOfLR evs.length evs = some bs →
+      GateMposOK 2 gate1 gate2 bs gms)
+    (hx : ∀ evs bs, iterate n c1 c2 (c1.length + c2.length) = .done evs → stepsOfLR evs.length evs = some bs →
+      ExactBlocks 2 thr gate1 gate2 (identityMpo n 2) bs gms decs)
+    (h : checkerRunLR thr gate1 gate2 n c1 c2 gms decs f = some b)
+    (c : CRat) (hc : CRat.normSq c = 1) (hU : U (sem 2 n gate1) c1 = c • U (sem 2 n gate2) c2)
+    (hunit : (U (sem 2 n gate2) c2)ᴴ * U (sem 2 n gate2) c2 = 1) (hf : f ≤ 1) : b = true := by
+  obtain ⟨_, _, hv⟩ := checker_correct_lr thr gate1 gate2 n c1 c2 gms decs f b h1 h2 hs hm hx h
+  have htr : trace ((U (sem 2 n gate1) c1)ᴴ * U (sem 2 n gate2) c2) = star c * ((2 ^ n : Nat) : CRat) := by
+    rw [hU, conjTranspose_smul, Matrix.smul_mul, hunit, trace_smul, trace_one_cfg, smul_eq_mul]
+  have hsq : ((2 : Rat) ^ n) * ((2 : Rat) ^ n)
+      = CRat.normSq (trace ((U (sem 2 n gate1) c1)ᴴ * U (sem 2 n gate2) c2)) := by
+    rw [htr, CRat.normSq_mul, CRat.normSq_star, hc, one_mul, CRat.normSq_natCast]
+    push_cast
+    ring
+  obtain ⟨hb, _⟩ := hv ((2 : Rat) ^ n) (by positivity) hsq
+  rw [hb]
+  exact verdict_equal_circuits _ n f rfl hf
+
+/-- **C04.43 (`checker_swap_lr`)** the verdict is the same with the two circuits swapped, long-range gates and swaps included
+    (now the long-range gates of BOTH circuits must be symmetric, since each circuit is the second one in one of the runs). -/
+theorem checker_swap_lr (thr thr' : Rat) (gate1 gate2 : Instr → Gate CRat) (n : Nat) (c1 c2 : Dag)
+    (gms gms' : List (List (Site CRat))) (decs decs' : List (Svd CRat)) (f : Rat) (b b' : Bool)
+    (h1 : LRCircuit n c1 gate1) (h2 : LRCircuit n c2 gate2) (hs1 : SymLR 2 c1 gate1) (hs2 : SymLR 2 c2 gate2)
+    (hm : ∀ evs bs, iterate n c1 c2 (c1.length + c2.length) = .done evs → stepsOfLR evs.length evs = some bs →
+      GateMposOK 2 gate1 gate2 bs gms)
+    (hx : ∀ evs bs, iterate n c1 c2 (c1.length + c2.length) = .done evs → stepsOfLR evs.length evs = some bs →
+      ExactBlocks 2 thr gate1 gate2 (identityMpo n 2) bs gms decs)
+    (hm' : ∀ evs bs, iterate n c2 c1 (c2.length + c1.length) = .done evs → stepsOfLR evs.length evs = some bs →
+      GateMposOK 2 gate2 gate1 bs gms')
+    (hx' : ∀ evs bs, iterate n c2 c1 (c2.length + c1.length) = .done evs → stepsOfLR evs.length evs = some bs →
+      ExactBlocks 2 thr' gate2 gate1 (identityMpo n 2) bs gms' decs')
+    (h : checkerRunLR thr gate1 gate2 n c1 c2 gms decs f = some b)
+    (h' : checkerRunLR thr' gate2 gate1 n c2 c1 gms' decs' f = some b') : b = b' := by
+  obtain ⟨hb, _, _⟩ := checker_correct_lr thr gate1 gate2 n c1 c2 gms decs f b h1 h2 hs2 hm hx h
+  obtain ⟨hb', _, _⟩ := checker_correct_lr thr' gate2 gate1 n c2 c1 gms' decs' f b' h2 h1 hs1 hm' hx' h'
+  rw [hb, hb', overlap_conj (U (sem 2 n gate1) c1) (U (sem 2 n gate2) c2), identityDecision_star]
+
+/-! ### non-vacuity of C04.35 – C04.43: concrete runs with a long-range gate over ℚ(i), three qubits
+
+  pair A: circuit 1 = CZ on qubits (2, 0) — distance 3, reversed orientation — and a one-qubit gate on qubit 1; circuit 2 = a
+  one-qubit gate on qubit 1 (the one-qubit matrix is neither real nor symmetric nor unitary).  Run (A): one long-range layer from
+  circuit 1 (pair updates at (0,1) and at the hanging site (1,2)); run (A'), the swapped call: the layer comes from circuit 2
+  (conjugated branch).  The gate MPO of CZ is the exact split `P₀ ⊗ 1 + P₁ ⊗ Z` (bond 2) with one identity tensor in between.
+  pair C: `i·Z⊗Z` on (2, 0) against `Z⊗Z` on (2, 0) (equal up to the phase `i`; bond-1 gate MPOs): one layer from each circuit.
+  The "SVDs" are exact factorisations `1·1·M`, `M·1·1` (all values kept) resp. the rank-one factorisation of pair C. -/
+private def czT : T4 CRat := fun a b c e => if a = c ∧ b = e then (if a = 1 ∧ b = 1 then -1 else 1) else 0
+private def exM1 : Nat → Nat → CRat := fun i j => ⟨(i : Nat), (2 * j + 1 : Nat)⟩
+private def lrGateOf (i : Instr) : Gate CRat := ⟨false, i.qs.length, i.qs, exM1, czT⟩
+private def czA : Site CRat := ⟨2, 1, 2, fun a c _ x => if a = c ∧ a = x then 1 else 0⟩
+private def czB : Site CRat := ⟨2, 2, 1, fun b e x _ => if b = e then (if x = 1 ∧ b = 1 then -1 else 1) else 0⟩
+private def czMpo : List (Site CRat) := czA :: (List.replicate 1 (idBond 2 2) ++ [czB])
+
+private def blockOf (g1 g2 : Instr → Gate CRat) (ts : List (Site CRat)) (s : Step) : T6 CRat :=
+  match ts[s.m]?, ts[s.m + 1]? with
+  | some A, some B => (updateTheta star 2 s.m A B (s.is1.map g1) (s.is2.map g2)).getD fun _ _ _ _ _ _ => 0
+  | _, _ => fun _ _ _ _ _ _ => 0
+private def dlOf (ts : List (Site CRat)) (m : Nat) : Nat := match ts[m]? with | some A => A.dl | none => 0
+private def drOf (ts : List (Site CRat)) (m : Nat) : Nat := match ts[m]? with | some A => A.dr | none => 0
+private def delta : Nat → Nat → CRat := fun i j => if i = j then 1 else 0
+private def blockMat (g1 g2 : Instr → Gate CRat) (ts : List (Site CRat)) (s : Step) : Nat → Nat → CRat :=
+  thetaMatrix 2 (dlOf ts s.m) (drOf ts (s.m + 1)) (blockOf g1 g2 ts s)
+/-- exact "SVD" `1 · 1 · M` of a block with no more rows than columns -/
+private def wideDec (g1 g2 : Instr → Gate CRat) (ts : List (Site CRat)) (s : Step) : Svd CRat :=
+  ⟨delta, List.replicate (4 * dlOf ts s.m) 1, fun _ => 1, blockMat g1 g2 ts s⟩
+/-- exact "SVD" `M · 1 · 1` of a block with no more columns than rows -/
+private def tallDec (g1 g2 : Instr → Gate CRat) (ts : List (Site CRat)) (s : Step) : Svd CRat :=
+  ⟨blockMat g1 g2 ts s, List.replicate (4 * drOf ts (s.m + 1)) 1, fun _ => 1, delta⟩
+/-- exact rank-one factorisation `(M[:,0] / M[0,0]) · 1 · M[0,:]` of a rank-one block whose corner entry has modulus 1 -/
+private def rankOneDec (g1 g2 : Instr → Gate CRat) (ts : List (Site CRat)) (s : Step) : Svd CRat :=
+  ⟨fun i _ => blockMat g1 g2 ts s i 0 * star (blockMat g1 g2 ts s 0 0), [1], fun _ => 1, fun _ j => blockMat g1 g2 ts s 0 j⟩
+private def stepTo (g1 g2 : Instr → Gate CRat) (ts : List (Site CRat)) (s : Step) (dec : Svd CRat) : List (Site CRat) :=
+  (updateMpo star 2 (1 / 2) g1 g2 ts s dec).getD []
+
+private theorem czSym : (gateMat2 2 czT)ᵀ = gateMat2 2 czT := by
+  ext x y
+  simp only [Matrix.transpose_apply, gateMat2]
+  revert x y
+  decide +kernel
+private theorem czSplit : ∀ a, a < 2 → ∀ b, b < 2 → ∀ c, c < 2 → ∀ e, e < 2 →
+    sumTo 2 (fun x => czA.e a c 0 x * czB.e b e x 0) = czT a b c e := by decide +kernel
+private theorem lrCirc (g : Instr → Gate CRat) (hg : ∀ i, (g i).sites = i.qs ∧ (g i).interaction = i.qs.length ∧ (g i).isId = false)
+    (c : Dag) (h : ∀ i ∈ c, (i.qs.length = 1 ∨ i.qs.length = 2) ∧ i.qs.Nodup ∧ (∀ q ∈ i.qs, q < 3)) :
+    LRCircuit 3 c g := fun i hi => ⟨(h i hi).1, (h i hi).2.1, (h i hi).2.2, (hg i).1, (hg i).2.1, fun _ => (hg i).2.2⟩
+private theorem lrSym (c : Dag) : SymLR 2 c lrGateOf := fun _ _ _ => czSym
+private theorem czMpoOK (g : Instr) (h : dist g.qs = 1 + 2) : GateMpoOK 2 (lrGateOf g) g czMpo :=
+  (gate_mpo_is_gate_on_ends 2 2 1 czA czB (lrGateOf g) g ⟨rfl, rfl, rfl⟩ ⟨rfl, rfl, rfl⟩ czSplit h).2
+
+-- pair A, run (A): the layer comes from circuit 1
+private def cA1 : Dag := mkDag [[2, 0], [1]]
+private def cA2 : Dag := mkDag [[1]]
+private def gA : Instr := ⟨0, [2, 0]⟩
+private def sA1 : Step := ⟨0, [⟨1, [1]⟩], [⟨0, [1]⟩]⟩
+private def sA2 : Step := ⟨1, [], []⟩
+private def bsA : List Blk := [Blk.lr 1 gA [sA1, sA2]]
+private def tsA0 : List (Site CRat) := lrMul false czMpo 0 (identityMpo 3 2)
+private def tsA1 : List (Site CRat) := stepTo lrGateOf lrGateOf tsA0 sA1 (wideDec lrGateOf lrGateOf tsA0 sA1)
+private def decsA : List (Svd CRat) := [wideDec lrGateOf lrGateOf tsA0 sA1, tallDec lrGateOf lrGateOf tsA1 sA2]
+private theorem evA : iterate 3 cA1 cA2 (cA1.length + cA2.length) = .done (bsA.flatMap Blk.evs) := by decide +kernel
+private theorem stA : stepsOfLR (bsA.flatMap Blk.evs).length (bsA.flatMap Blk.evs) = some bsA := by decide +kernel
+set_option maxRecDepth 4000 in
+private theorem exA_exact : exactBlocksBool 2 (1 / 2) lrGateOf lrGateOf (identityMpo 3 2) bsA [czMpo] decsA = true := by decide +kernel
+-- run (A'): the swapped call, the layer comes from circuit 2 (conjugated branch)
+private def sA1' : Step := ⟨0, [⟨0, [1]⟩], [⟨1, [1]⟩]⟩
+private def bsA' : List Blk := [Blk.lr 2 gA [sA1', sA2]]
+private def tsA0' : List (Site CRat) := lrMul true (rotateMpo star czMpo) 0 (identityMpo 3 2)
+private def tsA1' : List (Site CRat) := stepTo lrGateOf lrGateOf tsA0' sA1' (wideDec lrGateOf lrGateOf tsA0' sA1')
+private def decsA' : List (Svd CRat) := [wideDec lrGateOf lrGateOf tsA0' sA1', tallDec lrGateOf lrGateOf tsA1' sA2]
+private theorem evA' : iterate 3 cA2 cA1 (cA2.length + cA1.length) = .done (bsA'.flatMap Blk.evs) := by decide +kernel
+private theorem stA' : stepsOfLR (bsA'.flatMap Blk.evs).length (bsA'.flatMap Blk.evs) = some bsA' := by decide +kernel
+set_option maxRecDepth 4000 in
+private theorem exA'_exact : exactBlocksBool 2 (1 / 2) lrGateOf lrGateOf (identityMpo 3 2) bsA' [czMpo] decsA' = true := by decide +kernel
+
+/-- the hypotheses `hm`, `hx` of C04.40 – C04.43 for a three-qubit run -/
+private abbrev ExHyp (g1 g2 : Instr → Gate CRat) (c1 c2 : Dag) (gms : List (List (Site CRat))) (decs : List (Svd CRat)) : Prop :=
+  (∀ evs bs', iterate 3 c1 c2 (c1.length + c2.length) = .done evs → stepsOfLR evs.length evs = some bs' →
+    GateMposOK 2 g1 g2 bs' gms) ∧
+  (∀ evs bs', iterate 3 c1 c2 (c1.length + c2.length) = .done evs → stepsOfLR evs.length evs = some bs' →
+    ExactBlocks 2 (1 / 2) g1 g2 (identityMpo 3 2) bs' gms decs)
+
+private theorem exHyps (g1 g2 : Instr → Gate CRat) (c1 c2 : Dag) (bs : List Blk) (gms : List (List (Site CRat))) (decs : List (Svd CRat))
+    (ev : iterate 3 c1 c2 (c1.length + c2.length) = .done (bs.flatMap Blk.evs))
+    (st : stepsOfLR (bs.flatMap Blk.evs).length (bs.flatMap Blk.evs) = some bs)
+    (hm : GateMposOK 2 g1 g2 bs gms) (hx : exactBlocksBool 2 (1 / 2) g1 g2 (identityMpo 3 2) bs gms decs = true) :
+    ExHyp g1 g2 c1 c2 gms decs := by
+  constructor <;> intro evs bs' hit hst <;> rw [ev] at hit <;> cases hit <;> rw [st] at hst <;> cases hst
+  · exact hm
+  · exact exactBlocks_of_bool 2 (1 / 2) g1 g2 bs gms decs _ hx
+
+private theorem lrGateOf_ok : ∀ i, (lrGateOf i).sites = i.qs ∧ (lrGateOf i).interaction = i.qs.length ∧ (lrGateOf i).isId = false :=
+  fun _ => ⟨rfl, rfl, rfl⟩
+private theorem hA : ExHyp lrGateOf lrGateOf cA1 cA2 [czMpo] decsA := exHyps lrGateOf lrGateOf cA1 cA2 bsA [czMpo] decsA evA stA ⟨czMpoOK gA rfl, trivial⟩ exA_exact
+private theorem hA' : ExHyp lrGateOf lrGateOf cA2 cA1 [czMpo] decsA' := exHyps lrGateOf lrGateOf cA2 cA1 bsA' [czMpo] decsA' evA' stA' ⟨czMpoOK gA rfl, trivial⟩ exA'_exact
+private theorem cA1_ok : LRCircuit 3 cA1 lrGateOf := lrCirc _ lrGateOf_ok _ (by decide)
+private theorem cA2_ok : LRCircuit 3 cA2 lrGateOf := lrCirc _ lrGateOf_ok _ (by decide)
+
+-- C04.35: the CZ gate MPO stacked on the identity chain, both branches
+example : chainMat 2 3 (lrMul false czMpo 0 (identityMpo 3 2)) = embed2 2 3 0 2 (gateMat2 2 czT) * chainMat 2 3 (identityMpo 3 2) ∧
+    chainMat 2 3 (lrMul true (rotateMpo star czMpo) 0 (identityMpo 3 2))
+      = chainMat 2 3 (identityMpo 3 2) * (embed2 2 3 0 2 (gateMat2 2 czT))ᴴ := by
+  have h := long_range_stack 2 3 czMpo [] (identityMpo 3 2) [] (gateMat2 2 czT) (goodChain_identity 2 3) (by decide)
+    (czMpoOK gA rfl).1 (czMpoOK gA rfl).2
+  exact ⟨h.1.2, h.2.2 czSym⟩
+
+-- C04.39: the block structure of run (A)
+example : ∃ bs : List Blk, stepsOfLR (bsA.flatMap Blk.evs).length (bsA.flatMap Blk.evs) = some bs ∧
+    bsA.flatMap Blk.evs = bs.flatMap Blk.evs ∧ ∀ b ∈ bs, BlkOK 2 3 lrGateOf lrGateOf b :=
+  (lr_event_list_is_blocks 2 3 lrGateOf lrGateOf cA1 cA2 _ _ cA1_ok cA2_ok (lrSym _) evA).2
+
+-- C04.36: the long-range layer of run (A) — the new chain is (one-qubit gates of the zone) ∘ (CZ₀₂ · 1)
+set_option maxRecDepth 4000 in
+example : ∃ ts', lrLayer star 2 (1 / 2) lrGateOf lrGateOf (identityMpo 3 2) 1 gA czMpo [sA1, sA2] decsA = some ts' ∧
+    chainMat 2 3 ts' = runEvs (sem 2 3 lrGateOf) (fun i => star (sem 2 3 lrGateOf i)) (chainMat 2 3 (identityMpo 3 2))
+      (Blk.evs (.lr 1 gA [sA1, sA2])) := by
+  obtain ⟨bs, hst, _, hok⟩ := (lr_event_list_is_blocks 2 3 lrGateOf lrGateOf cA1 cA2 _ _ cA1_ok cA2_ok (lrSym _) evA).2
+  rw [stA] at hst
+  cases hst
+  have hx := (hA.2 _ _ evA stA).1
+  exact ⟨_, rfl, (long_range_layer_chain 2 3 (1 / 2) lrGateOf lrGateOf (identityMpo 3 2) _ 1 gA czMpo [sA1, sA2] decsA
+    (goodChain_identity 2 3) (hok _ (by simp [bsA])) (czMpoOK gA rfl) hx rfl).2.1⟩
+
+-- C04.40: run (A) exists and its chain is U₁ · U₂ᴴ
+set_option maxRecDepth 4000 in
+example : ∃ ts, iterateMpoLR star 2 (1 / 2) lrGateOf lrGateOf 3 cA1 cA2 [czMpo] decsA = some ts ∧
+    chainMat 2 3 ts = U (sem 2 3 lrGateOf) cA1 * (U (sem 2 3 lrGateOf) cA2)ᴴ :=
+  ⟨_, rfl, (iterate_represents_product_lr 2 3 (1 / 2) lrGateOf lrGateOf cA1 cA2 [czMpo] decsA _ cA1_ok cA2_ok (lrSym _)
+    hA.1 hA.2 rfl).2.2.2⟩
+
+-- C04.41: the verdict of run (A)
+set_option maxRecDepth 4000 in
+example : ∃ b, checkerRunLR (1 / 2) lrGateOf lrGateOf 3 cA1 cA2 [czMpo] decsA (1 / 2) = some b ∧
+    b = identityDecision (trace ((U (sem 2 3 lrGateOf) cA1)ᴴ * U (sem 2 3 lrGateOf) cA2)) 3 (1 / 2) :=
+  ⟨_, rfl, (checker_correct_lr (1 / 2) lrGateOf lrGateOf 3 cA1 cA2 [czMpo] decsA (1 / 2) _ cA1_ok cA2_ok (lrSym _)
+    hA.1 hA.2 rfl).1⟩
+
+-- C04.43: both argument orders (in the swapped call the long-range gate is applied through the conjugated branch)
+set_option maxRecDepth 4000 in
+example : ∃ b b', checkerRunLR (1 / 2) lrGateOf lrGateOf 3 cA1 cA2 [czMpo] decsA (1 / 2) = some b ∧
+    checkerRunLR (1 / 2) lrGateOf lrGateOf 3 cA2 cA1 [czMpo] decsA' (1 / 2) = some b' ∧ b = b' :=
+  ⟨_, _, rfl, rfl, checker_swap_lr (1 / 2) (1 / 2) lrGateOf lrGateOf 3 cA1 cA2 [czMpo] [czMpo] decsA decsA' (1 / 2) _ _
+    cA1_ok cA2_ok (lrSym _) (lrSym _) hA.1 hA.2 hA'.1 hA'.2 rfl rfl⟩
+
+
+-- pair C: `i·Z⊗Z` on (2, 0) against `Z⊗Z` on (2, 0)
+private def sgn (x : Nat) : CRat := if x = 1 then -1 else 1
+private def zzT (c : CRat) : T4 CRat := fun a b c' e => if a = c' ∧ b = e then c * sgn a * sgn b else 0
+private def zzGate (c : CRat) (i : Instr) : Gate CRat := ⟨false, i.qs.length, i.qs, fun _ _ => 0, zzT c⟩
+private def zzA (c : CRat) : Site CRat := ⟨2, 1, 1, fun a c' _ _ => if a = c' then c * sgn a else 0⟩
+private def zzB : Site CRat := ⟨2, 1, 1, fun b e _ _ => if b = e then sgn b else 0⟩
+private def zzMpo (c : CRat) : List (Site CRat) := zzA c :: (List.replicate 1 (idBond 2 1) ++ [zzB])
+private def cC : Dag := mkDag [[2, 0]]
+private def s0 : Step := ⟨0, [], []⟩
+private def s1 : Step := ⟨1, [], []⟩
+private def bsC : List Blk := [Blk.lr 1 gA [s0, s1], Blk.lr 2 gA [s0, s1]]
+private abbrev gI := zzGate CRat.I
+private abbrev g1' := zzGate 1
+private def tC0 : List (Site CRat) := lrMul false (zzMpo CRat.I) 0 (identityMpo 3 2)
+private def tC1 := stepTo gI g1' tC0 s0 (rankOneDec gI g1' tC0 s0)
+private def tC2 := stepTo gI g1' tC1 s1 (rankOneDec gI g1' tC1 s1)
+private def tC3 : List (Site CRat) := lrMul true (rotateMpo star (zzMpo 1)) 0 tC2
+private def tC4 := stepTo gI g1' tC3 s0 (rankOneDec gI g1' tC3 s0)
+private def decsC : List (Svd CRat) :=
+  [rankOneDec gI g1' tC0 s0, rankOneDec gI g1' tC1 s1, rankOneDec gI g1' tC3 s0, rankOneDec gI g1' tC4 s1]
+private theorem evC : iterate 3 cC cC (cC.length + cC.length) = .done (bsC.flatMap Blk.evs) := by decide +kernel
+private theorem stC : stepsOfLR (bsC.flatMap Blk.evs).length (bsC.flatMap Blk.evs) = some bsC := by decide +kernel
+set_option maxRecDepth 4000 in
+private theorem exC_exact : exactBlocksBool 2 (1 / 2) gI g1' (identityMpo 3 2) bsC [zzMpo CRat.I, zzMpo 1] decsC = true := by
+  decide +kernel
+private theorem zzSplit (c : CRat) : ∀ a, a < 2 → ∀ b, b < 2 → ∀ c', c' < 2 → ∀ e, e < 2 →
+    sumTo 1 (fun x => (zzA c).e a c' 0 x * zzB.e b e x 0) = zzT c a b c' e := by
+  intro a ha b hb c' hc e he
+  simp only [sumTo, zzA, zzB, zzT, zero_add]
+  by_cases h1 : a = c' <;> by_cases h2 : b = e <;> simp [h1, h2]
+private theorem zzMpoOK (c : CRat) : GateMpoOK 2 (zzGate c gA) gA (zzMpo c) :=
+  (gate_mpo_is_gate_on_ends 2 1 1 (zzA c) zzB (zzGate c gA) gA ⟨rfl, rfl, rfl⟩ ⟨rfl, rfl, rfl⟩ (zzSplit c) rfl).2
+private theorem zzSym (c : CRat) : (gateMat2 2 (zzT c))ᵀ = gateMat2 2 (zzT c) := by
+  ext x y
+  simp only [Matrix.transpose_apply, gateMat2, zzT]
+  by_cases h : (x.1 : Nat) = y.1 ∧ (x.2 : Nat) = y.2
+  · rw [if_pos h, if_pos ⟨h.1.symm, h.2.symm⟩, h.1, h.2]
+  · rw [if_neg h, if_neg (fun h' => h ⟨h'.1.symm, h'.2.symm⟩)]
+private theorem hC : ExHyp gI g1' cC cC [zzMpo CRat.I, zzMpo 1] decsC :=
+  exHyps gI g1' cC cC bsC _ decsC evC stC ⟨zzMpoOK CRat.I, zzMpoOK 1, trivial⟩ exC_exact
+private theorem cC_ok (c : CRat) : LRCircuit 3 cC (zzGate c) := lrCirc _ (fun _ => ⟨rfl, rfl, rfl⟩) _ (by decide)
+private theorem zz_sem (c : CRat) : U (sem 2 3 (zzGate c)) cC = c • embed2 2 3 0 2 (gateMat2 2 (zzT 1)) := by
+  have h : gateMat2 2 (zzT c) = c • gateMat2 2 (zzT 1) := by
+    ext x y
+    simp only [gateMat2, zzT, Matrix.smul_apply, smul_eq_mul]
+    split_ifs <;> simp [mul_assoc]
+  have e : U (sem 2 3 (zzGate c)) cC = embed2 2 3 0 2 (gateMat2 2 (zzT c)) := by
+    show (([(⟨0, [2, 0]⟩ : Instr)].map (sem 2 3 (zzGate c))).reverse).prod = _
+    simp [sem, gateSem, zzGate]
+  rw [e, h, embed2_smul 2 3 0 2 (by decide) (by decide) (by decide)]
+
+set_option maxRecDepth 4000 in
+example : ∃ b, checkerRunLR (1 / 2) gI g1' 3 cC cC [zzMpo CRat.I, zzMpo 1] decsC 1 = some b ∧ b = true := by
+  refine ⟨_, rfl, checker_equal_up_to_phase_lr (1 / 2) gI g1' 3 cC cC _ decsC 1 _ (cC_ok _) (cC_ok _)
+    (fun _ _ _ => zzSym 1) hC.1 hC.2 rfl CRat.I (by decide +kernel) ?_ ?_ (le_refl 1)⟩
+  · rw [zz_sem, zz_sem, one_smul]
+  · rw [zz_sem, one_smul, embed2_conjTranspose, embed2_mul]
+    have : (gateMat2 2 (zzT 1))ᴴ * gateMat2 2 (zzT 1) = 1 := by
+      ext x y
+      rw [Matrix.mul_apply, Fintype.sum_prod_type]
+      simp only [Fin.sum_univ_two, Matrix.conjTranspose_apply, gateMat2, Matrix.one_apply]
+      revert x y
+      decide +kernel
+    rw [this, embed2_one]
+
+end Yaqs.CheckerLR
